@@ -27,6 +27,8 @@ fn spaces(tier: Tier) -> Vec<Space> {
             Space { alpha: "SAME", depth: 3 },
             Space { alpha: "SELFX", depth: 2 },
             Space { alpha: "SELFX", depth: 3 },
+            Space { alpha: "CASC", depth: 2 },
+            Space { alpha: "CASC", depth: 3 },
             Space { alpha: "MICRO", depth: 3 },
             Space { alpha: "BIND", depth: 2 },
             Space { alpha: "CORE", depth: 3 },
@@ -47,6 +49,8 @@ fn spaces(tier: Tier) -> Vec<Space> {
             Space { alpha: "SAME", depth: 3 },
             Space { alpha: "SELFX", depth: 2 },
             Space { alpha: "SELFX", depth: 3 },
+            Space { alpha: "CASC", depth: 2 },
+            Space { alpha: "CASC", depth: 3 },
             Space { alpha: "CORE", depth: 3 },
             Space { alpha: "A0", depth: 3 },
             Space { alpha: "MICRO", depth: 4 },
@@ -348,6 +352,18 @@ impl Prop for CanonProp {
                             match lookup_rec_expr(&re, &eg) {
                                 Some(l) if eg.eq(&l, &a) => {}
                                 other => fails.push(("add-vs-lookup".into(), format!("after insertion {label} {}", p.to_sexp()), format!("lookup gives {other:?}, add_expr gave {a:?}"))),
+                            }
+                            // the invocation returned for a NEW term: its slots are the term's free slots minus the redundant
+                            // ones, and its map is keyed by exactly the slots of its class
+                            let want: BTreeSet<Slot> = ex2[i].1.iter().map(|n| slot_of(*n, nm)).collect();
+                            let have: BTreeSet<Slot> = a.slots().iter().copied().collect();
+                            if have != want {
+                                fails.push(("result-slots".into(), format!("add_expr of the new term {label} {}", p.to_sexp()), format!("returned {a:?}: slots {have:?} vs expected {want:?}")));
+                            }
+                            let keys: BTreeSet<Slot> = a.m.keys().iter().copied().collect();
+                            let cls: BTreeSet<Slot> = eg.slots(a.id).iter().copied().collect();
+                            if keys != cls && eg.is_alive(a.id) {
+                                fails.push(("malformed-invocation".into(), format!("add_expr of the new term {label} {}", p.to_sexp()), format!("returned {a:?} but its class has the slots {cls:?}")));
                             }
                         }
                     }
